@@ -292,6 +292,18 @@ def fn_maps_n3(items):
                     nt += len(Gs)
                     if (np.asarray(lst.gs) != rg).any() or (np.asarray(lst.ps) % 4 != rp).any():
                         viol.append(V('C03/N3/transform', [root, depth, cap], 'N=3 map: image of the group differs from the reference homomorphism'))
+                    # inverse of the N=3 map: valid, two-sided identity by the reference
+                    try:
+                        Ci = C.inverse()
+                        ig, ip = np.asarray(Ci.gs).astype(np.int64), np.asarray(Ci.ps).astype(np.int64) % 4
+                        I6 = np.eye(2 * N, dtype=np.int64)
+                        g1, p1 = ref.map_apply(ig, ip, cg, cp)
+                        g2, p2 = ref.map_apply(cg, cp, ig, ip)
+                        n += 1
+                        if not ref.is_valid_map(ig, ip) or (g1 != I6).any() or (g2 != I6).any() or p1.any() or p2.any():
+                            viol.append(V('C03/N3/inverse', [root, depth, cap], 'N=3 map: inverse() is not the two-sided inverse (rows %s)' % [ref.g_to_str(g_, p_) for g_, p_ in zip(cg, cp)]))
+                    except Exception as e:
+                        viol.append(V('C03/N3/inverse/raises-%s' % type(e).__name__, [root, depth, cap], 'inverse of an N=3 map raised %s' % e))
                     nxt.append(C)
                     if len(seen) >= cap:
                         break
